@@ -188,8 +188,20 @@ def r08g(ck, fb):
         op = st['rv']['ops'][0]
         pl = op_place(op)
         if pl is None:
+            from rn.facts import op_const
+            c0 = op_const(op)
+            if c0 is not None:
+                n += 1
+                big0 = False
+                try:
+                    big0 = int(c0.get('v')) >= 2 ** 64 - 1
+                except Exception:
+                    pass
+                ck.require(big0, 'R08g', 'finalize:None-wipes-the-log', b.where(i), 'the log manager is always asked to split off at %s: not everything is removed' % c0.get('v'), 'u64::MAX')
+                ck.ok('R08o', 'finalize:Some-wipes-the-log-too', b.where(i), 'the bound is the constant u64::MAX whatever delete_through says')
             continue
         consts = []
+        nonconst = []
 
         def walk(l, depth=0):
             if depth > 4:
@@ -204,7 +216,20 @@ def r08g(ck, fb):
                     p2 = op_place(rv['op'])
                     if p2 is not None and not pl_proj(p2):
                         walk(pl_local(p2), depth + 1)
+                    else:
+                        nonconst.append(bb)
+                else:
+                    nonconst.append(bb)
         walk(pl_local(pl))
+        ck.rule('R08o', 'the log of a node that installs a snapshot goes completely, also when it is LONGER than the snapshot (delete_through = Some(index): '
+                        'entries of an old term above the snapshot that were never committed): RaftCore continues with last_log_index = index and '
+                        'sends index + 1 next, and this log only accepts the entry that follows its last one. The split-off bound of '
+                        'finalize_snapshot_installation is u64::MAX on every path - not delete_through + 1, which keeps the stale suffix: the next '
+                        'append is refused ("log write index not equal"), a fatal storage error that shuts the node\'s raft down')
+        ck.require(not nonconst, 'R08o', 'finalize:Some-wipes-the-log-too', b.where(nonconst[0]) if nonconst else b.where(i),
+                   'the split-off bound of an installation is computed (delete_through + 1) on some path: a follower whose log is longer than the snapshot '
+                   'keeps entries above it, cannot append index + 1 and never catches up (old leader with 1..=3 applied, 4..=12 uncommitted, snapshot '
+                   '(8, term 2) with Some(8): append 9 -> Err, last log stays 12 / term 1)', 'constant bound')
         # Option::map_or(default, f) / unwrap_or(default): the default is the value for None
         d0 = cfg.describe_operand(b, op)
         if d0['k'] == 'call' and re.search(r'Option::<T>::(map_or|unwrap_or)$', cfg.callee_name(d0['term']) or ''):
